@@ -129,7 +129,7 @@ def stepHist (strict : Bool) (fs : FoldSt) (inp out : Json) : Except String Fold
       if fs.facade then
         let (l, r) := facadeWrite strict { state := fs.state, inUse := fs.inUse } op
         { state := l.state, resp := r, trace := [] }
-      else forgeLog strict op none false fs.state
+      else forgeLog strict op [] false fs.state
     if fs.facade then inUse' := (facadeWrite strict { state := fs.state, inUse := fs.inUse } op).1.inUse
     state' := o.state
     let mk (f : String) (m r : Json) : Option Mismatch := some { op := fs.i, field := f, model := m, real := r }
@@ -243,15 +243,21 @@ def handleHist : Handler := fun inp out => do
 
 /-! ### handler "ctrlfault" -/
 
-def faultOfJson (j : Json) : Except String (Option Fault × Bool) := do
-  let kind ← strField j "kind"
-  if kind = "commit" then pure (none, true) else
-  let k ← natField j "at"
-  let fk ← (if kind = "error" then pure FaultKind.error
-            else if kind = "deadlock" then pure FaultKind.deadlock
-            else if kind = "cancel" then pure FaultKind.cancel
-            else throw s!"unknown fault kind {kind}")
-  pure (some { at_ := k, kind := fk }, boolFieldD j "andCommit")
+def faultKindOf (kind : String) : Except String FaultKind :=
+  if kind = "error" then pure .error
+  else if kind = "deadlock" then pure .deadlock
+  else if kind = "cancel" then pure .cancel
+  else if kind = "ik-conflict" then pure .ikConflict
+  else throw s!"unknown fault kind {kind}"
+
+/-- A plan: the call faults, and whether a COMMIT failure is armed. -/
+def planOfJson (j : Json) : Except String (Faults × Bool) := do
+  let fs ← (match j with | .arr a => pure a.toList | _ => throw "plan: not an array")
+  fs.foldlM (fun (acc : Faults × Bool) fj => do
+    let kind ← strField fj "kind"
+    let cf := acc.2 || kind = "commit" || boolFieldD fj "andCommit"
+    if kind = "commit" then pure (acc.1, cf)
+    else pure (acc.1 ++ [{ at_ := ← natField fj "at", kind := ← faultKindOf kind }], cf)) ([], false)
 
 /-- The store call a real trace entry names (second word). -/
 def entryMethod (e : String) : String :=
@@ -275,7 +281,7 @@ def handleFault : Handler := fun inp out => do
   let mut tags : List String := ["op:" ++ kindTag]
   let mut fired := 0
   -- one comparison of the model with a real run from the prefix state
-  let compare (f : Option Fault) (cf : Bool) (real : Json) (label : String) : Except String (Option Mismatch) := do
+  let compare (f : Faults) (cf : Bool) (real : Json) (label : String) : Except String (Option Mismatch) := do
     let op ← opOfJson opIn real
     let o := forgeLog strict op f cf fs.state
     let resp ← field real "resp"
@@ -295,14 +301,16 @@ def handleFault : Handler := fun inp out => do
     let d := mTabs.diff real'
     if d ≠ "" then return mk ("snapshot." ++ d) mTabs.toJson real'.toJson
     return none
-  if mismatch.isNone then mismatch ← compare none false base "base"
+  if mismatch.isNone then mismatch ← compare [] false base "base"
   let baseErr := optStrField (← field base "resp") "err"
   tags := tags ++ ["base:" ++ (if baseErr = "" then "ok" else baseErr)]
   for r in runs do
-    let fj ← field r "fault"
-    let (f, cf) ← faultOfJson fj
+    let fj ← field r "plan"
+    let (f, cf) ← planOfJson fj
     let real ← field r "out"
-    let label := s!"fault {fj.compress}"
+    let label := s!"plan {fj.compress}"
+    let kinds : List String := (match fj with | .arr a => a.toList.map (fun x => optStrField x "kind") | _ => [])
+    let single := kinds.length = 1
     if mismatch.isNone then mismatch ← compare f cf real label
     -- C07 on the real outputs
     let resp ← field real "resp"
@@ -310,21 +318,25 @@ def handleFault : Handler := fun inp out => do
     let delta ← field real "delta"
     let didFire := boolFieldD r "fired"
     if didFire then fired := fired + 1
-    let fk := optStrField fj "kind"
+    let fk := "+".intercalate kinds
+    let andCommit := cf && !(kinds == ["commit"])
+    let onlyKinds (ks : List String) : Bool := kinds.all (fun k => ks.contains k)
     if rErr ≠ "" && !deltaEmpty delta then
       fails := fails ++ [s!"{label}: failed write changed the snapshot"]
     if boolFieldD opIn "dry" && !deltaEmpty delta then
       fails := fails ++ [s!"{label}: dry-run write changed the snapshot"]
-    if didFire && (fk = "commit" || boolFieldD fj "andCommit") && rErr = "" && !boolFieldD opIn "dry" then
+    if didFire && kinds == ["commit"] && rErr = "" && !boolFieldD opIn "dry" then
       fails := fails ++ [s!"{label}: COMMIT failed but the write answered success"]
-    if didFire && (fk = "error" || fk = "cancel") && rErr = "" && !boolFieldD opIn "dry" then
+    if (← strArrField real "trace").any (·.endsWith "Commit !commit-failed") && rErr = "" then
+      fails := fails ++ [s!"{label}: COMMIT failed but the write answered success"]
+    if didFire && single && (fk = "error" || fk = "cancel") && rErr = "" && !boolFieldD opIn "dry" then
       -- a non-retryable failure may only be swallowed when it hit a Rollback
       let tr ← strArrField real "trace"
       let hit := tr.filter (fun e => (e.splitOn " !").length > 1 &&
         (e.endsWith "!injected" || e.endsWith "!canceled"))
       if !(hit.all (fun e => entryMethod e = "Rollback")) then
         fails := fails ++ [s!"{label}: store failure swallowed"]
-    if didFire && fk = "deadlock" && !boolFieldD fj "andCommit" && rErr = "deadlock" then
+    if didFire && onlyKinds ["deadlock"] && !andCommit && rErr = "deadlock" then
       -- a deadlock is retried unless it hit BeginTX, the idempotency-key read, or Commit
       let tr ← strArrField real "trace"
       let hit := (tr.filter (·.endsWith "!deadlock")).map entryMethod
@@ -332,7 +344,7 @@ def handleFault : Handler := fun inp out => do
         fails := fails ++ [s!"{label}: deadlock inside the operation was not retried"]
     let disc := traceDiscipline (← strArrField real "trace")
     if disc ≠ "" then fails := fails ++ [s!"{label}: handle discipline: {disc}"]
-    tags := tags ++ [s!"{fk}{if boolFieldD fj "andCommit" then "+commit" else ""}{if boolFieldD opIn "dry" then "/dry" else ""}:" ++ (if !didFire then "not-reached" else if rErr = "" then "ok" else rErr)]
+    tags := tags ++ [s!"{fk}{if andCommit then "+commit" else ""}{if boolFieldD opIn "dry" then "/dry" else ""}:" ++ (if !didFire then "not-reached" else if rErr = "" then "ok" else rErr)]
   let sel (p : String) : Bool := want = "" || p = want
   let selFails := if sel "C07" then fails else []
   pure { model := match mismatch with | some m => m.toJson | none => Json.null,
